@@ -152,7 +152,8 @@ Inductive ev :=
 | EAbort (tx : N)                      (* ... coordinator.abort *)
 | ETimeouts                            (* cleanup_timeouts *)
 | ETakeAborts                          (* take_pending_aborts, broadcast *)
-| EAdvance (d : N).
+| EAdvance (d : N)
+| EStray (tx sh : N) (yes : bool).   (* a misrouted / stale vote carrying tx's id from a shard that is NOT one of its participants *)
 
 Record gst := G {
   co : coord; ps : list part; net : list msg; gnow : N; gh : N;
@@ -257,6 +258,14 @@ Definition gstep (g : gst) (e : ev) : gst * list N :=
        flat_aborts q')
   | EAdvance d =>
       (G (co g) (ps g) (net g) (gnow g + d) (gh g) (dec g) (applied g) (discarded g) (cast g) (parts_of g), [])
+  | EStray tx sh yes =>
+      match aget (pending (co g)) tx with
+      | Some t =>
+          if mem sh (c_parts t) then (g, [9])     (* a forged vote OF a participant is outside the fault model *)
+          else let '(c', r) := c_vote (co g) tx sh (if yes then VYes 0 else VConflict 0) in
+               (G c' (ps g) (net g) (gnow g) (gh g) (dec g) (applied g) (discarded g) (cast g) (parts_of g), [r])
+      | None => (g, [3])
+      end
   end.
 
 Definition grun (g : gst) (es : list ev) : gst := fold_left (fun g e => fst (gstep g e)) es g.
